@@ -95,6 +95,10 @@ def check_account_proof(proof: bytes, shrd_blk: BlockIdExt, address: "Address", 
 
     state_cell = proof_cells[1]
 
+    for proof_cell in proof_cells:
+        if proof_cell.type_ != CellTypes.merkle_proof:
+            raise ProofError(f'Expected Merkle proof Cell, got {proof_cell.type_} Cell type')
+
     state_hash = check_block_header_proof(proof_cells[0][0], shrd_blk.root_hash, True)
 
     if state_cell[0].get_hash(0) != state_hash:
